@@ -72,7 +72,7 @@ func FuzzC06ParseFile(f *testing.F) {
 		n := int(chunk)%4097 + 0
 		sc := []readStep{{N: n}, {N: 0}, {N: n}, {N: 1}, {N: n}}
 		w := []bcl.Option{bcl.OptOutput(io.Discard), bcl.OptLogger(io.Discard)}
-		bcl.InterpretFile(&scriptFile{data: append([]byte{}, data...), script: sc, name: "f"}, w...)
+		bcl.InterpretFile(&scriptFile{data: append([]byte{}, data...), script: sc, name: "f", eofData: chunk&0x8000 != 0}, w...)
 		var tgt []smallTarget
 		bcl.UnmarshalFile(&scriptFile{data: append([]byte{}, data...), script: sc[:2], name: "f"}, &tgt, w...)
 	})
